@@ -17,6 +17,8 @@ EXTENDS Naturals, Sequences, FiniteSets, TLC, Json
 CONSTANTS Leaves,          \* sequence of leaf names, e.g. <<"a", "c", "r">>
           Fmts,            \* set of file formats
           MaxChanges,      \* later file changes (with watching)
+          AliasLeaf,       \* "" or a leaf that carries an alias tag: the file may supply it under the alias name
+          FileEncs,        \* file key casings: subset of {"none", "kebab"} ("kebab": Params.FileFieldNameEncoder re-cases the keys)
           BUG_EnvUnderFile,        \* a seeded mistake: the file overrides the environment
           BUG_VerifyIntermediate   \* a seeded mistake: the file-less intermediate stack is verified as well
 
@@ -31,10 +33,11 @@ VARIABLES step,      \* decisions taken so far
           fstate,    \* "ok" | "missing" | "malformed"
           bad,       \* "" or a layer whose value for the first leaf ends in 9 (fails Verify when it wins)
           fmt, watch,
+          fopt,      \* how the file spells its keys: [alias |-> the aliased leaf is written under its alias, enc |-> casing]
           ran,       \* the expected outcome of the entry point (after "run")
           view,      \* the expected current view (after "run")
           changes    \* later file versions with the expected outcome of each
-vars == <<step, prov, pathProv, fstate, bad, fmt, watch, ran, view, changes>>
+vars == <<step, prov, pathProv, fstate, bad, fmt, watch, fopt, ran, view, changes>>
 
 Val(L, l) == IF bad = L /\ L # "file" /\ LeafIdx(l) = 1 THEN 100 * Rank(L) + 10 * LeafIdx(l) + 9 ELSE 100 * Rank(L) + 10 * LeafIdx(l) + 1
 
@@ -57,6 +60,7 @@ Init ==
   /\ step = 0
   /\ prov = [l \in LeafSet |-> {}]
   /\ pathProv = {} /\ fstate = "ok" /\ bad = "" /\ fmt \in Fmts /\ watch \in BOOLEAN
+  /\ fopt = [alias |-> FALSE, enc |-> "none"]
   /\ ran = [done |-> FALSE, err |-> "", verify |-> <<>>, exposed |-> 0]
   /\ view = [l \in LeafSet |-> 0]
   /\ changes = <<>>
@@ -65,7 +69,7 @@ ChooseLeaf ==
   /\ step < Len(Leaves)
   /\ \E S \in SUBSET {"def", "file", "env", "flag"} : prov' = [prov EXCEPT ![Leaves[step + 1]] = S]
   /\ step' = step + 1
-  /\ UNCHANGED <<pathProv, fstate, bad, fmt, watch, ran, view, changes>>
+  /\ UNCHANGED <<pathProv, fstate, bad, fmt, watch, fopt, ran, view, changes>>
 
 ChooseFile ==
   /\ step = Len(Leaves)
@@ -73,6 +77,10 @@ ChooseFile ==
        /\ pathProv' = P /\ fstate' = fs /\ bad' = b
        /\ (P = {} => fs = "ok")                      \* no path: the file state is irrelevant
        /\ (b # "" => b \in prov[Leaves[1]])          \* the bad value must actually be provided
+  \* spelling of the file's keys: either name of an aliased leaf sets it, whatever casing the file uses (C14 through ez)
+  /\ \E al \in BOOLEAN, enc \in FileEncs :
+       /\ (al => AliasLeaf \in LeafSet /\ "file" \in prov[AliasLeaf])
+       /\ fopt' = [alias |-> al, enc |-> enc]
   /\ step' = step + 1
   /\ UNCHANGED <<prov, fmt, watch, ran, view, changes>>
 
@@ -90,7 +98,7 @@ Run ==
                    exposed |-> 0]                                        \* nothing reaches Events / OnNewConfig
         /\ view' = full
   /\ step' = step + 1
-  /\ UNCHANGED <<prov, pathProv, fstate, bad, fmt, watch, changes>>
+  /\ UNCHANGED <<prov, pathProv, fstate, bad, fmt, watch, fopt, changes>>
 
 FileChange ==         \* the watched file is replaced
   /\ step = Len(Leaves) + 2 /\ ran.err = "" /\ watch /\ pathProv # {} /\ Len(changes) < MaxChanges
@@ -107,7 +115,7 @@ FileChange ==         \* the watched file is replaced
                                              view |-> IF ok THEN new ELSE view,
                                              err |-> IF fs # "ok" THEN "decode" ELSE IF ~Valid(new) THEN "verify" ELSE ""])
              /\ view' = IF ok THEN new ELSE view
-  /\ UNCHANGED <<step, prov, pathProv, fstate, bad, fmt, watch, ran>>
+  /\ UNCHANGED <<step, prov, pathProv, fstate, bad, fmt, watch, fopt, ran>>
 
 Next == ChooseLeaf \/ ChooseFile \/ Run \/ FileChange
 Spec == Init /\ [][Next]_vars
@@ -127,7 +135,7 @@ VerifyOnlyFull == ran.done => Len(ran.verify) <= 1
 VisibleValid == (ran.done /\ ran.err = "") => Valid(view)
 NoIntermediateExposure == ran.exposed = 0
 
-Case == [leaves |-> Leaves, prov |-> prov, path |-> pathProv, fstate |-> fstate, bad |-> bad, fmt |-> fmt, watch |-> watch,
+Case == [leaves |-> Leaves, prov |-> prov, path |-> pathProv, fstate |-> fstate, bad |-> bad, fmt |-> fmt, watch |-> watch, fopt |-> fopt,
          ran |-> ran, view0 |-> IF changes = <<>> THEN view ELSE ran.verify[1], changes |-> changes]
 Emit == (step = Len(Leaves) + 2 /\ (ran.err # "" \/ ~watch \/ pathProv = {} \/ Len(changes) = MaxChanges \/ Len(changes) >= 0))
            => PrintT(<<"CASE", ToJson(Case)>>)
